@@ -52,6 +52,7 @@ import (
 	"strings"
 
 	_ "github.com/wader/fq/format/all"
+	"github.com/wader/fq/internal/mathx"
 	"github.com/wader/fq/internal/verifharness/hlib"
 	"github.com/wader/fq/pkg/interp"
 	"github.com/wader/fq/pkg/bitio"
@@ -594,6 +595,58 @@ func runCaseHex(o *hlib.Out, shape string, L int64, buf []byte, hexText string, 
 	return obs
 }
 
+// ---- direct calls of the bit functions the model translates (their tie when the source is not in
+// the translator's fragment, and an additional check when it is):
+//
+//	fn rev64 <nBits> <n hex>   bitio.ReverseBytes64            -> u:<dec> | panic
+//	fn twos <nBits> <n hex>    mathx.TwosComplement            -> s:<dec>
+//	fn f16 <h hex>             mathx.Float16(h).Float32() bits -> u:<dec>   (expandF16ToF32)
+//	fn f80 <se hex> <m hex>    NewFloat80FromBytes(..).Float64 -> f:<Float64bits>
+func runFn(o *hlib.Out, ws []string) {
+	op := "fn " + strings.Join(ws, " ")
+	hexv := func(s string) uint64 { v, _ := strconv.ParseUint(s, 16, 64); return v }
+	obs, _ := hlib.Catch(func() string {
+		switch {
+		case ws[0] == "rev64" && len(ws) == 3:
+			nb, _ := strconv.Atoi(ws[1])
+			return "u:" + strconv.FormatUint(bitio.ReverseBytes64(nb, hexv(ws[2])), 10)
+		case ws[0] == "twos" && len(ws) == 3:
+			nb, _ := strconv.Atoi(ws[1])
+			return "s:" + strconv.FormatInt(mathx.TwosComplement(nb, hexv(ws[2])), 10)
+		case ws[0] == "f16" && len(ws) == 2:
+			return "u:" + strconv.FormatUint(uint64(math.Float32bits(mathx.Float16(hexv(ws[1])).Float32())), 10)
+		case ws[0] == "f80" && len(ws) == 3:
+			se, m := hexv(ws[1]), hexv(ws[2])
+			b := []byte{byte(se >> 8), byte(se), byte(m >> 56), byte(m >> 48), byte(m >> 40), byte(m >> 32), byte(m >> 24), byte(m >> 16), byte(m >> 8), byte(m)}
+			return fmt.Sprintf("f:%016x", math.Float64bits(mathx.NewFloat80FromBytes(b).Float64()))
+		}
+		return "badfn"
+	})
+	if strings.HasPrefix(obs, "panic:") {
+		obs = "panic"
+	}
+	o.Case(op, obs)
+}
+
+// tieStats reports, per translated bit function, whether this run's tie is the regenerated definition
+// (the generator's <fn>_same_as_model marker in lean/FqModel/Gen/BitFns.lean) or the correspondence run
+func tieStats(o *hlib.Out) {
+	src, err := os.ReadFile(filepath.Join(os.Getenv("VERIF_DIR"), "lean", "FqModel", "Gen", "BitFns.lean"))
+	if err != nil {
+		return
+	}
+	for _, fn := range []string{"reverseBytes64", "twosComplement", "expandF16ToF32", "f80to64"} {
+		if strings.Contains(string(src), "def "+fn+"_same_as_model : Bool := true") {
+			o.Stat("tie_regenerated_"+fn, 1)
+		} else {
+			o.Stat("tie_correspondence_only_"+fn, 1)
+		}
+		if strings.Contains(string(src), "def "+fn+"_translated : Bool := false") {
+			o.Stat("not_translatable_"+fn, 1)
+		}
+	}
+}
+
 // expandHex: `.`-joined segments, each `<hex>` or `<n>x<hex>`
 func expandHex(s string) ([]byte, bool) {
 	if s == "-" {
@@ -657,6 +710,10 @@ func main() {
 	if cfg.Replay != "" {
 		for _, l := range hlib.ReplayLines(cfg.Replay) {
 			ws := strings.Fields(l)
+			if len(ws) >= 2 && ws[0] == "fn" {
+				runFn(o, ws[1:])
+				continue
+			}
 			if len(ws) < 6 || ws[0] != "rd" {
 				continue
 			}
